@@ -139,40 +139,46 @@ theorem usablePub_nat (n : Nat) (s : Option (PubShare P)) :
       simp only [Option.map_some, mapSh, usablePub]
       split <;> rfl
 
-theorem xCommitAux_nat (n : Nat) : ∀ (l : List (Option (PubShare P))) (pos : Nat),
-    xCommitAux S n pos (l.map (Option.map (mapSh φ))) = (xCommitAux S n pos l).map (mapNode φ) := by
+theorem xCommitAux_nat (n : Nat) : ∀ (l : List (Option (PubShare P))) (pos : Nat) (seen : List Int),
+    xCommitAux S n pos seen (l.map (Option.map (mapSh φ)))
+      = (xCommitAux S n pos seen l).map (mapNode φ) := by
   intro l
   induction l with
-  | nil => intro pos; rfl
+  | nil => intro pos seen; rfl
   | cons s rest ih =>
-    intro pos
+    intro pos seen
     simp only [List.map_cons, xCommitAux]
     rw [usablePub_nat]
     cases hu : usablePub n s with
-    | none => simp only [Option.map_none]; exact ih _
+    | none => simp only [Option.map_none]; exact ih _ _
     | some iv =>
       obtain ⟨i, v⟩ := iv
-      simp only [Option.map_some, List.map_cons, ih]
-      rfl
+      simp only [Option.map_some]
+      by_cases hs : i ∈ seen
+      · simp only [hs, if_true]; exact ih _ _
+      · simp only [hs, if_false, List.map_cons, ih]
+        rfl
 
 /-- all node values of the map built by `RecoverCommit` lie in `V` -/
-theorem xCommitAux_V (n : Nat) : ∀ (l : List (Option (PubShare P))) (pos : Nat),
+theorem xCommitAux_V (n : Nat) : ∀ (l : List (Option (PubShare P))) (pos : Nat) (seen : List Int),
     (∀ s ∈ l, ∀ sh, s = some sh → ∀ v, sh.V = some v → V v) →
-    ∀ nd ∈ xCommitAux S n pos l, V nd.v := by
+    ∀ nd ∈ xCommitAux S n pos seen l, V nd.v := by
   intro l
   induction l with
-  | nil => intro pos _ nd hnd; simp [xCommitAux] at hnd
+  | nil => intro pos seen _ nd hnd; simp [xCommitAux] at hnd
   | cons s rest ih =>
-    intro pos hl nd hnd
+    intro pos seen hl nd hnd
     have hrest : ∀ s' ∈ rest, ∀ sh, s' = some sh → ∀ v, sh.V = some v → V v :=
       fun s' hs' => hl s' (List.mem_cons_of_mem _ hs')
     unfold xCommitAux at hnd
     cases hu : usablePub n s with
-    | none => rw [hu] at hnd; exact ih _ hrest nd hnd
+    | none => rw [hu] at hnd; exact ih _ _ hrest nd hnd
     | some iv =>
       obtain ⟨i, v⟩ := iv
       rw [hu] at hnd
-      simp only [List.mem_cons] at hnd
+      by_cases hseen : i ∈ seen
+      · simp only [hseen, if_true] at hnd; exact ih _ _ hrest nd hnd
+      simp only [hseen, if_false, List.mem_cons] at hnd
       rcases hnd with rfl | hnd
       · -- the value of a usable entry is the entry's value
         cases s with
@@ -188,7 +194,7 @@ theorem xCommitAux_V (n : Nat) : ∀ (l : List (Option (PubShare P))) (pos : Nat
               obtain ⟨_, rfl⟩ := hu
               exact hl _ (List.mem_cons_self) _ rfl _ rfl
             · cases hu
-      · exact ih _ hrest nd hnd
+      · exact ih _ _ hrest nd hnd
 
 theorem numDen_nat (xs : List (Node S P)) (i : Node S P) (num0 : S) :
     numDen (xs.map (mapNode φ)) (mapNode φ i) num0 = numDen xs i num0 := by
@@ -239,11 +245,11 @@ theorem recoverCommit_nat (h : Hom S φ V) (dp : Bool) (l : List (Option (PubSha
   unfold recoverCommit
   simp only
   rw [xCommitAux_nat, List.length_map]
-  by_cases hlt : (xCommitAux S n 0 l).length < t
+  by_cases hlt : (xCommitAux S n 0 [] l).length < t
   · simp only [hlt, if_true]; exact ⟨rfl, fun c hc => by cases hc⟩
   · simp only [hlt, if_false]
-    have := commitFold_nat h dp (xCommitAux S n 0 l) (xCommitAux S n 0 l) (.ok 0)
-      (xCommitAux_V n l 0 hl) (fun a ha => by simp only [Out.ok.injEq] at ha; subst ha; exact h.v0)
+    have := commitFold_nat h dp (xCommitAux S n 0 [] l) (xCommitAux S n 0 [] l) (.ok 0)
+      (xCommitAux_V n l 0 [] hl) (fun a ha => by simp only [Out.ok.injEq] at ha; subst ha; exact h.v0)
     simp only [mapOut, h.f0] at this
     exact this
 
@@ -252,6 +258,9 @@ theorem recover_nat (h : Hom S φ V) {cd : Codec P} {cd' : Codec P'} (hc : Codec
     (pub : List S) (hm : P) (hhm : V hm) (sigs : List Bytes) (t n : Nat) :
     recover cd' pub (φ hm) sigs t n = recover cd pub hm sigs t n := by
   unfold recover
+  by_cases hguard : t < pub.length
+  · simp only [hguard, if_true]
+  simp only [hguard, if_false]
   obtain ⟨e1, e2⟩ := collect_nat h hc pub hm hhm t n (uniq sigs) [] [] (fun s hs => by simp at hs)
   simp only [List.map_nil] at e1
   rw [e1]
